@@ -18,6 +18,13 @@ def exec_cases(rnd, full):
                         prog = "mov rcx, rsp\nmov rsp, %s\nmov rax, rsp\nmov rsp, rcx\nret\n" % txt
                     else:
                         prog = "mov %s, %s\nmov rax, %s\nret\n" % (reg, txt, reg)
+                        if len(cases) % 3 == 1 and txt[-1] in "0123456789abcdefABCDEF":
+                            # the same program behind a DECOY: another register first receives a literal that differs from this
+                            # one in its last digit only (same length, same spelling)
+                            last = txt[-1]
+                            alt = {"0": "1", "9": "8", "f": "e", "F": "E", "a": "b", "A": "B"}.get(last, chr(ord(last) + 1))
+                            decoy = "r11" if reg != "r11" else "rdx"
+                            prog = "mov %s, %s\n" % (decoy, txt[:-1] + alt) + prog
                     cases.append({"reg": reg, "imm": v, "mode": mode, "spell": sp, "text": "mov %s, %s" % (reg, txt), "prog": prog,
                                   "fam": "exec_mov_r64", "mn": "mov", "w": 64, "key": "exec mov %s, %s [mov=%s]" % (reg, txt, mode)})
     return cases
@@ -136,7 +143,7 @@ def run(tier):
     st["model_executions_ok"] = ok2
     v.cov["rule"] = ("immediate-taking forms (ALU/mov/test r,imm and m,imm at every width, imul, shifts, rorx, shld/shrd, push, xabort, psrldq, vperm2*128) x boundary and "
                      "seeded random values representable at the destination x spellings (hex, decimal, negated, leading zeros, 16-digit); decoded immediate compared modulo the "
-                     "operand width, immediate-field width checked through instruction length; plus JIT execution of 'mov r64,v; mov rax,r64; ret' for all 16 registers x values x 3 mov modes")
+                     "operand width, immediate-field width checked through instruction length; plus JIT execution of 'mov r64,v; mov rax,r64; ret' for all 16 registers x values x 3 mov modes (a third of them behind a decoy mov whose literal differs in the last digit only)")
     v.cov["exhaustive"] = False
     v.assumptions += ["decoders trusted where nasm validates them", "for mov r64,imm with 0<=imm<=0xffffffff both the r64 and the zero-extending r32 destination are accepted here (which one: C11)"]
     floor = st["held"] > 1000 and ok > 100 and st["reference_validated_cases"] >= 0.99 * st["cases"]
